@@ -25,18 +25,22 @@ def run(tier, seed):
     s = 1 if big else 24
     r = ac.run_universe(ctx, "checks", ac.consts(Universe='"checks"', SampleN=s), timeout=7200)
     ac.replay(ctx, r.exports["PROG"], describe=describe)
+    ac.trace_authorize(ctx, r.exports["PROG"], 1500 if big else 250, "checks")
     r = ac.run_universe(ctx, "alts", ac.consts(Universe='"alts"', MaxBlocks=2, ScopeMenu="<- Scopes4", SampleN=1 if big else 2), timeout=7200)
     ac.replay(ctx, r.exports["PROG"], describe=describe)
+    ac.trace_authorize(ctx, r.exports["PROG"], 1500 if big else 250, "alts")
     r = ac.run_universe(ctx, "policies", ac.consts(Universe='"policies"', MaxBlocks=2, Exts="<- ExtsOne",
                                                     ScopeMenu="<- Scopes4" if big else "<- Scopes3", SampleN=1 if big else 4), timeout=7200)
     ac.replay(ctx, r.exports["PROG"], describe=describe)
+    ac.trace_authorize(ctx, r.exports["PROG"], 1500 if big else 250, "policies")
     return ctx.finish(
         rule="One TLC state = one (token, authorizer) program from scope-complete universes: `checks` (1..3 blocks, first/third-party "
              "with two external keys, one derivation rule and one check of each kind in every owner incl. the authorizer, every scope on block, "
              "rule and check), `alts` (checks with two alternatives, every kind), `policies` (ordered pairs of allow/deny policies with scopes). "
              "The spec computes the authorization result (matched policy, ordered failed checks), the final world with origins and three queries; "
              "each exported state is built with the real builders/keys and authorize(), the world (hook verif_facts), query() and query_all() are compared. "
-             "distinct_nontrivial = number of distinct programs replayed.",
+             "Implementation -> spec: for a sample of each universe the decision events of authorize() (hook H2: owner, index, trusted origins, result of every evaluated alternative) "
+             "are validated by TLC against AuthorizerTrace.tla (evaluation order, short-circuit rules per kind, trusted origins, final result). distinct_nontrivial = number of distinct programs replayed.",
         exhaustive=big)
 
 
